@@ -214,9 +214,9 @@ fn run(ctx: &mut Ctx) {
             });
         }
     }
-    ctx.bound("contents", "information-request lists of length 0..=24; every content seed 0..=11 of every slot (all flag / console / preference variants) between two other tags");
+    ctx.bound("contents", "information-request lists of length 0..=24, 255..=257, 16383, 16384; every content seed 0..=11 of every slot (all flag / console / preference variants) between two other tags");
     for slot in 0..NSLOTS {
-        for c in 0..=(if slot == 0 { 24 } else { 11 }) {
+        for c in (0..=(if slot == 0 { 24 } else { 11 })).chain(if slot == 0 { vec![255usize, 256, 257, 16383, 16384] } else { vec![] }) {
             let prog = vec![(1usize, 0usize), (slot, c), (9, 2)];
             let describe = || J::obj().set("part", "contents").set("slot", SLOT_NAMES[slot]).set("content_seed", c);
             ctx.leaf(describe, |ctx| {
